@@ -85,13 +85,7 @@ func oracleC04(j *Job, sc Scn, x *Exec, res *XferRes, src, dst fsmodel.Tree, r *
 		r.Add("executions_with_fault_reached", 1)
 	}
 	if res.Hang {
-		who := ""
-		if !res.SendDone {
-			who += "send"
-		}
-		if !res.RecvDone {
-			who += "recv"
-		}
+		who := res.HangWho
 		v = append(v, Viol{"hang-after-teardown:" + who, fmt.Sprintf("%s call(s) still blocked after the stream was torn down in both directions; parked: %v", who, res.Parked)})
 		return v
 	}
@@ -217,6 +211,35 @@ func driveC04(p *Pool, r *evid.Run) {
 			exploreAll(p, r, "C04", scns, bound, 0)
 		}
 	}
+
+	// on-disk source (fsutil's own walker and opener), destination equal or dirty: cancellation and
+	// stream faults at every position
+	var disk []Scn
+	for _, dstName := range []string{"small-same", "small-dirty"} {
+		for _, pol := range []string{"run", "recv"} {
+			root := Scn{Kind: "xfer", Src: "small", Dst: dstName, Cap: 2, Policy: pol, DiskSrc: true, SelectAlts: true}
+			rr := exploreAll(p, r, "C04", []Scn{root}, 0, 0)
+			if rr[0].Info == nil {
+				continue
+			}
+			for _, kind := range []string{"cancelS", "cancelB", "cancelR", "break"} {
+				for k := 0; k < rr[0].Info["steps"]; k++ {
+					sc := root
+					sc.Fault = Fault{Kind: kind, K: k}
+					disk = append(disk, sc)
+				}
+			}
+			for _, kind := range []string{"S.send", "S.recv", "R.send", "R.recv"} {
+				for k := 0; k < rr[0].Info[kind]; k++ {
+					sc := root
+					sc.Fault = Fault{Kind: kind, K: k}
+					disk = append(disk, sc)
+				}
+			}
+		}
+	}
+	r.Add("fault_scenarios", int64(len(disk)))
+	exploreAll(p, r, "C04", disk, 1, 0)
 
 	// large fan-out: more than 132 requests outstanding while the link is stalled
 	var fan []Scn
